@@ -165,6 +165,25 @@ def gen_desc(rng, tier, pool=None, integer=False):
                 s[0] = int(s[0])
         if d["sites"] or rng.random() < 0.1:
             break
+    if rng.random() < 0.3:
+        # dead branches: leaves (and sometimes whole sample-free subtrees) that are not samples
+        for nd in d["nodes"]:
+            if nd[0] & 1 and rng.random() < 0.4:
+                nd[0] = 0
+    return d
+
+
+MANY = tuple("a%d" % i for i in range(160)) + ("",)
+
+
+def gen_many_alleles(rng):
+    """one site with far more than 64 distinct alleles (allele list growth 4 -> 8 -> ... -> 128)"""
+    d = gen_ts.random_desc(rng, max_nodes=rng.choice([70, 90]), max_L=2, max_sites=1, max_muts=140,
+                           metadata=False, individuals=False, populations=False,
+                           p_internal_sample=0.1, p_gap=0.0, p_root=0.1, alleles=MANY, scale=1)
+    # distinct derived states as far as possible
+    for j, m in enumerate(d["mutations"]):
+        m[2] = MANY[j % len(MANY)]
     return d
 
 
@@ -292,15 +311,16 @@ def cresult(obs_dec):
 
 class Decode(Family):
     name = "decode"
-    prelude = ("From TskVerif Require Import Base.Common C03.Model C03.Spec C03.PyViews.\n"
+    prelude = ("From TskVerif Require Import Base.Common C03.Model C03.Spec C03.PyViews C03.MutParents.\n"
                "Open Scope Z_scope.")
     workers = 8
     shard = 150
 
     def generate(self, rng, tier):
         n = 2000 if tier == "quick" else 20000
+        many = 4 if tier == "quick" else 40
         for i in range(n):
-            desc = gen_desc(rng, tier)
+            desc = gen_many_alleles(rng) if i < many else gen_desc(rng, tier)
             ns = len(desc["sites"])
             samples = gen_samples(rng, desc)
             iam = rng.choice([True, True, False, None])
@@ -327,8 +347,22 @@ class Decode(Family):
         desc = case["desc"]
         ts = build_ts(desc)
         obs = {"ts_samples": [int(u) for u in ts.samples()], "trees": {}, "decodes": []}
-        for s in sorted(set(case["order"])):
+        for s in range(ts.num_sites):
             obs["trees"][str(s)] = tree_arrays(ts, ts.sites_position[s])
+        # mutation.parent as stored and as tsk_table_collection_compute_mutation_parents computes it
+        obs["mut_parent_stored"] = [int(x) for x in ts.mutations_parent]
+        tc2 = ts.dump_tables()
+        try:
+            tc2.compute_mutation_parents()
+            obs["mut_parent_computed"] = [int(x) for x in tc2.mutations.parent]
+        except Exception as e:
+            obs["mut_parent_computed"] = exc_obs(e)
+        try:
+            m = ts.genotype_matrix(samples=case["samples"], isolated_as_missing=case["iam"],
+                                   alleles=None if case["alleles"] is None else tuple(case["alleles"]))
+            obs["matrix"] = {"ok": [[int(g) for g in r] for r in m]}
+        except Exception as e:
+            obs["matrix"] = exc_obs(e)
         try:
             v = tskit.Variant(ts, samples=case["samples"], isolated_as_missing=case["iam"],
                               alleles=None if case["alleles"] is None else tuple(case["alleles"]))
@@ -426,6 +460,14 @@ class Decode(Family):
         if obs.get("copy_decode", "LibraryError") != "LibraryError":
             out.append(("copy-decodes", "decode on a copy: %s" % obs["copy_decode"]))
         ual = case["alleles"]
+        want_par = [m[3] for m in desc["mutations"]]
+        if obs["mut_parent_stored"] != want_par:
+            out.append(("mutation-parent-stored", "%r vs description %r" % (obs["mut_parent_stored"], want_par)))
+        if obs["mut_parent_computed"] != want_par:
+            out.append(("compute-mutation-parents", "computed %r, nearest mutation above is %r" % (obs["mut_parent_computed"], want_par)))
+        for d in obs["decodes"]:
+            if "ok" in obs["matrix"] and "genotypes" in d and obs["matrix"]["ok"][d["site"]] != d["genotypes"]:
+                out.append(("matrix-vs-decode", "site %d: genotype_matrix row %r, decode %r" % (d["site"], obs["matrix"]["ok"][d["site"]], d["genotypes"])))
         for d in obs["decodes"]:
             s = d["site"]
             tag = "user-alleles" if ual is not None else "auto-alleles"
@@ -536,11 +578,39 @@ class Decode(Family):
             tr = ctree(obs["trees"][str(s)])
             terms.append("check_decode %s %s %s %s %s" % (
                 clist(par), tr, "v", csite(desc, s), cresult(d)))
+            # mutation.parent column: model of compute_mutation_parents = what the library computes,
+            # and every parent precedes its child (hypothesis of parents_imply_order_ok)
+            first = next((j for j, m in enumerate(desc["mutations"]) if m[0] == s), 0)
+            if isinstance(obs["mut_parent_computed"], list):
+                col = [(-1 if x == -1 else x - first) for j, x in enumerate(obs["mut_parent_computed"])
+                       if desc["mutations"][j][0] == s]
+                terms.append("check_parents %s %s %s %s" % (clist(par), tr, csite(desc, s), clist(col)))
+            if "err" not in d:
+                r = cresult(d)[4:-1]
+                mds = "N" if case["mds"] is None else case["mds"]
+                if isinstance(d["states"], list):
+                    terms.append("res_eqb alleles_list_eqb (states_model %s %s) (Ok %s)" % (cbytes_of(mds), r, calleles(d["states"])))
+                elif d["states"]["exc"] == "ValueError":
+                    terms.append("res_eqb alleles_list_eqb (states_model %s %s) (Err PY_VALUE_ERROR)" % (cbytes_of(mds), r))
+                else:
+                    terms.append("false (* states() raised %s *)" % d["states"]["exc"])
+                terms.append("(num_alleles_model %s =? %s) && (num_missing_model %s =? %s)" % (r, cz(d["num_alleles"]), r, cz(d["num_missing"])))
             if "err" not in d and isinstance(d.get("counts"), list):
                 # Variant.counts() against its model (reproduces the duplicate-allele finding too)
                 obs_counts = "[" + "; ".join("(%s, %s)" % ("None" if k is None else "Some %s" % cbytes_of(k), cz(c))
                                               for k, c in d["counts"]) + "]"
                 terms.append("counts_eqb (counts_model %s) %s" % (cresult(d)[4:-1], obs_counts))
+        # genotype_matrix = decode of every site in order with one Variant
+        nsites = len(desc["sites"])
+        if nsites <= 6 and len(desc["nodes"]) <= 20:
+            pairs = "[" + "; ".join("(%s, %s)" % (ctree(obs["trees"][str(s)]), csite(desc, s)) for s in range(nsites)) + "]"
+            mm = "genotype_matrix_model %s v %s" % (cn(len(desc["nodes"]) + 3), pairs)
+            if "ok" in obs["matrix"]:
+                terms.append("res_eqb zll_eqb (%s) (Ok [%s])" % (mm, "; ".join(clist(r) for r in obs["matrix"]["ok"])))
+            elif obs["matrix"].get("code") is not None:
+                terms.append("res_eqb zll_eqb (%s) (Err %s)" % (mm, cz(obs["matrix"]["code"])))
+            else:
+                terms.append("false (* genotype_matrix raised %s *)" % obs["matrix"]["exc"])
         body = " && ".join("(%s)" % t for t in terms) if terms else "true"
         return "match %s with Ok v => %s | _ => false end" % (vinit, body)
 
@@ -647,6 +717,11 @@ class Views(Family):
             r = rng.random()
             if r < 0.4:
                 left = right = None
+            elif r < 0.55 and len(desc["sites"]) >= 1:
+                # boundaries exactly at site positions (left inclusive, right exclusive)
+                ps = [x[0] for x in desc["sites"]]
+                left = rng.choice(ps + [None])
+                right = rng.choice(ps + [None, L])
             elif r < 0.75:
                 step = 1 if (integer and rng.random() < 0.8) else 0.5
                 pts = [x * step for x in range(0, int(L / step) + 1)]
@@ -942,19 +1017,36 @@ class Views(Family):
                 terms.append("res_eqb zll_eqb (%s) (Err %s)" % (model, "PY_VALUE_ERROR" if h["exc"] == "ValueError" else "PY_TYPE_ERROR"))
             else:
                 terms.append("false (* haplotypes raised %s, the model has no such outcome *)" % h["exc"])
-        # alignments from the haplotype rows
+        # alignments(): the complete model (discrete genome, interval, reference selection,
+        # isolated samples, Variant init, haplotype errors, assembly)
         a = obs["alignments"]
         sc = desc.get("scale", 1)
-        if "ok" in a and "ok" in h and rng_ok and sc == 1:
-            lo, hi = self.interval(case)
-            lo, hi = int(lo), int(hi)
-            ref = case["ref"]
-            if ref is None:
-                ref = desc["refseq"][lo:hi] if desc.get("refseq") else mdc * (hi - lo)
-            pos = [int(s[0]) for s in desc["sites"] if lo <= s[0] < hi]
-            terms.append("res_eqb zll_eqb (alignments_model %s %s %s %s [%s]) (Ok [%s])" % (
-                cbytes_of(ref), cz(lo), cz(hi), clist(pos), "; ".join(cbytes_of(x) for x in h["ok"]),
-                "; ".join(cbytes_of(x) for x in a["ok"])))
+        discrete = float(desc["L"] * sc).is_integer() and \
+            all(float(e[0] * sc).is_integer() and float(e[1] * sc).is_integer() for e in desc["edges"]) and \
+            all(float(x[0] * sc).is_integer() for x in desc["sites"])
+        if (not discrete) or sc == 1:
+            iv = self.interval(case)
+            pos = []
+            if iv is not None and float(iv[0]).is_integer() and float(iv[1]).is_integer():
+                pos = [int(x[0]) for x in desc["sites"] if iv[0] <= x[0] < iv[1]]
+            rs = "[]"
+            if "ok" in va:
+                rs = "[" + "; ".join("(%s, %s, %s)" % (clist(g), calleles([x for x in al if x is not None]), cbool(hm))
+                                      for _sid, g, al, hm in va["ok"]) + "]"
+            emb = desc.get("refseq")
+            ain = "(mkAlignIn %s %s %s %s %s %s %s %s %s %s %s %s)" % (
+                cbool(discrete), cz(L2), cz(left2), cz(right2),
+                "None" if case["ref"] is None else "(Some %s)" % cbytes_of(case["ref"]),
+                "(Some %s)" % cbytes_of(emb) if emb else "None",
+                cz(ord(mdc)), cbool(any_isolated_sample_tree(desc)),
+                cbool(init_expect(desc, case["samples"], True) is not None),
+                cz(len(nodes)), clist(pos), rs)
+            if "ok" in a:
+                want = "(Ok [%s])" % "; ".join(cbytes_of(x) for x in a["ok"])
+            else:
+                want = "(Err %s)" % {"ValueError": "PY_VALUE_ERROR", "TypeError": "PY_TYPE_ERROR",
+                                     "LibraryError": "PY_LIBRARY_ERROR"}.get(a["exc"], "99")
+            terms.append("res_eqb zll_eqb (alignments_full %s) %s" % (ain, want))
         if not terms:
             return None
         return " && ".join("(%s)" % t for t in terms)
@@ -1038,6 +1130,9 @@ BASES = [
     # two trees; the site lies in the second one where sample 0 is isolated and 1,2 hang under 3
     _base([(1, 0), (1, 0), (1, 0), (0, 1), (0, 2)],
           [(0, 1, 3, 0), (0, 2, 3, 1), (0, 1, 4, 3), (0, 1, 4, 2), (1, 2, 3, 2)], 2, [(1, "A")]),
+    # unsimplified: a dead branch (non-sample leaf 2 under 3) and a sample-free subtree (5 -> 6)
+    _base([(1, 0), (1, 0), (0, 0), (0, 1), (0, 3), (0, 1), (0, 0)],
+          [(0, 1, 3, 1), (0, 1, 3, 2), (0, 1, 4, 0), (0, 1, 4, 3), (0, 1, 4, 5), (0, 1, 5, 6)], 1, [(0, "A")]),
 ]
 
 
